@@ -19,7 +19,9 @@
 // answers every reconnect GET as scripted: ok (the events after the cursor the REAL client
 // asked for), transport error, or the HTTP status the script names ("500", "429", "404", ...:
 // the statuses are values of the model, not one representative per class); an id the server
-// never issued gets 400.  A "stuck" server (cfg.tail) keeps ending every body at offset 0 once
+// never issued gets 400; "<status>:<id>" is that status with a JSON-RPC error response as body
+// (Content-Type application/json; id own = the pending call's id, other = an id no call has,
+// null), the way a server that speaks JSON-RPC refuses a request.  A "stuck" server (cfg.tail) keeps ending every body at offset 0 once
 // its scripted cuts are used up and the last body ended at offset 0 - for ever, so a client
 // that does not give up is seen retrying until the virtual hour is over.
 //
@@ -640,6 +642,18 @@ func (r *c09Rec) RoundTrip(req *http.Request) (*http.Response, error) {
 			return c09JSONResp(req, http.StatusNotFound, "", nil), nil
 		case "ok":
 		default:
+			if status, idk, ok := strings.Cut(ans, ":"); ok {
+				// a non-2xx status whose body is a JSON-RPC error response: "409:own", "400:null", ...
+				code, err := strconv.Atoi(status)
+				id := map[string]string{"own": st.callID, "other": "999983", "null": "null"}[idk]
+				if err != nil || code < 400 || code > 599 || id == "" {
+					panic("c09: bad scripted answer " + ans)
+				}
+				if code == http.StatusNotFound {
+					r.gone = true
+				}
+				return c09JSONResp(req, code, `{"jsonrpc":"2.0","id":`+id+`,"error":{"code":-32600,"message":"c09: this stream cannot be resumed"}}`, nil), nil
+			}
 			// an HTTP status as the script names it: "500", "429", "403", ...
 			code, err := strconv.Atoi(ans)
 			if err != nil || code < 400 || code > 599 {
